@@ -57,7 +57,7 @@ def cases(tier, seed):
     for dname, rows in DATA.items():
         D = len(rows[0])
         n = len(rows)
-        kinds = ["np", [1, n - 1]] if tier == "quick" else ["np", [1, n - 1], [n // 2, n - n // 2], [1] * n]
+        kinds = ["np", [1, n - 1], ["ser", 1, 2, n - 3]] if tier == "quick" else ["np", [1, n - 1], [n // 2, n - n // 2], [1] * n, ["ser", 1, 2, n - 3], ["ser"] + [1] * n]
         for ii, init in enumerate(INITS[D]):
             for sw in SWITCHES:
                 for floor in ("default", "half"):
@@ -107,13 +107,22 @@ def run_case(case):
     tier = case.get("tier", "quick")
     kmax = KMAX[tier]
     is_dask = case["kind"] != "np"
-    tags = dict(sw="".join(map(str, sw)), kind="dask" if is_dask else "numpy", floor=case["floor"])
+    tags = dict(sw="".join(map(str, sw)), kind=("dask-serialised" if case["kind"][0] == "ser" else "dask") if is_dask else "numpy", floor=case["floor"])
     var_floor = 0.5 * s * s if case["floor"] == "half" else EPS
     scale = float(np.abs(X).max()) + 1.0
 
+    serialised = is_dask and case["kind"][0] == "ser"
+    rows = case["kind"][1:] if serialised else case["kind"]
+
     def fit(cap, thr, machine=None):
         m = machine if machine is not None else _machine(case, init, s, o, cap, thr)
-        m.fit(_mk(X, case["kind"]))
+        if serialised:
+            # every task on a pickled copy (as with dask.distributed): parameters only travel through returned values
+            from mc import sched
+
+            sched.run_with(lambda: m.fit(_mk(X, rows)), (), "serialised")
+        else:
+            m.fit(_mk(X, rows))
         c.transitions += 1
         return m
 
